@@ -548,7 +548,60 @@ def rule_n13(repo):
     need(n_sites, 'first_order_match: no fresh-name site found')
     return res
 
+def rule_n14(repo):
+    """The instantiation is a table from the *names of schematic variables* to terms.  A fixed variable of the pattern can have
+    the same name as a schematic one (x and ?x), so asking the table about `v.name` means something only when v is known to be
+    a schematic variable: every question `v.name in inst` and every look-up with a default `inst.get(v.name, ..)` in the matcher
+    is made behind `v.is_svar()` (in the same condition or on the path), or for the head of a pattern that was found to be a
+    schematic variable.  Asked for a fixed x, the table answers for ?x: ?x + ?f x matched a + p a with ?f := p."""
+    res = RuleResult('C09.N14', 'the instantiation is asked about a name only for a variable known to be schematic', floor=2)
+    for name, g in matcher_nested(repo).items():
+        cfg = cfg_of(g.node)
+        flow = flow_of(g.node)
+        asks = []
+        asserted = {id(x) for a in ast.walk(g.node) if isinstance(a, ast.Assert) for x in ast.walk(a.test)}
+        for n in cfg.nodes:
+            if n.ast is None:
+                continue
+            for h in cfg.headers(n):
+                for x in ast.walk(h):
+                    if id(x) in asserted:
+                        continue            # `assert v.name in inst` states what the code relies on; nothing is decided by it
+                    cp = compare_parts(x) if isinstance(x, ast.Compare) else None
+                    if cp and cp[0] in (ast.In, ast.NotIn) and is_name(cp[2], 'inst') and isinstance(cp[1], ast.Attribute) and cp[1].attr == 'name':
+                        asks.append((n, cp[1].value, x))
+                    if isinstance(x, ast.Call) and call_attr(x) == 'get' and is_name(x.func.value, 'inst') and x.args and \
+                            isinstance(x.args[0], ast.Attribute) and x.args[0].attr == 'name':
+                        asks.append((n, x.args[0].value, x))
+        for i, (n, subj, where) in enumerate(asks):
+            stxt = src(flow.inline(subj), 60)
+            stxt = re.sub(r'\.head$', '', stxt) if stxt.endswith('.head') else stxt
+
+            def known(e, pol, stxt=stxt):
+                if not (pol and isinstance(e, ast.Call) and call_attr(e) == 'is_svar'):
+                    return False
+                r = src(flow.inline(e.func.value), 60)
+                return r == stxt or r == stxt + '.head' or re.sub(r'\.head$', '', r) == stxt
+            edges = cfg.establishing_edges(known)
+            # the same condition: `v.is_svar() and v.name in inst` - the atoms of one `and` are separate test nodes, the membership one is reached
+            # only through the true edge of the one before it, so the path criterion covers it
+            ok = bool(edges) and cfg.path_avoiding(n, skip_edges=edges) is None
+            if not ok:
+                # .. unless the condition stands inside a comprehension / all(..) / any(..), which the flow graph does not take apart: there the
+                # conjunct in front of it within one `and` is looked for directly
+                for b in ast.walk(g.node):
+                    if isinstance(b, ast.BoolOp) and isinstance(b.op, ast.And):
+                        for j, v_ in enumerate(b.values):
+                            if any(x is where for x in ast.walk(v_)) and any(known(u, True) for u in b.values[:j]):
+                                ok = True
+            res.add('%s :: first_order_match.%s :: asks(%s)#%d' % (MATCHER, name, src(subj, 30), i + 1), ok,
+                    '`%s.is_svar()` holds wherever the table is asked' % stxt if ok else
+                    'line %d asks the instantiation about `%s.name` (`%s`) although `%s` need not be a schematic variable: a fixed variable x of the pattern is '
+                    'taken for an already matched ?x, and ?x + ?f x matches a + p a' % (where.lineno, src(subj, 30), src(where, 50), src(subj, 30)),
+                    '%s:%d' % (MATCHER, where.lineno))
+    return res
+
 
 def rules(repo):
     return [rule_n1(repo), rule_n2(repo), rule_n3(repo), rule_n4(repo), rule_n5(repo), rule_n6(repo), rule_n7(repo), rule_n8(repo), rule_n9(repo),
-            rule_n10(repo), rule_n11(repo), rule_n12(repo), rule_n13(repo)]
+            rule_n10(repo), rule_n11(repo), rule_n12(repo), rule_n13(repo), rule_n14(repo)]
